@@ -845,7 +845,8 @@ Definition fa_native : fattr := {| fa_old := false; fa_fmt := 76; fa_os := 76 |}
    has had ever since, [None] otherwise.  [i_n] / [i_cap] only say whether the node owns storage and how many bytes: they
    decide which bytes a strided write into a node that has outgrown its storage initialises to zero (the code's "initialize
    the new disk_space with zero's, then we'll write the partial data").  The block writer's zero fill of a chunk it adds
-   without writing into it is NOT claimed here. *)
+   without writing into it is NOT claimed here; blocks of zero elements (b_start = b_end + 1, accepted by the code) are
+   outside the specification. *)
 Record ideal := mkI { i_ty : dtype; i_dims : list Z; i_n : Z; i_cap : Z; i_b : Z -> option Z }.
 Definition i0 : ideal := mkI MT [] 0 0 (fun _ => None).
 Definition i_total (I : ideal) : Z := esz (i_ty I) * prodZ (i_dims I).
@@ -866,7 +867,7 @@ Definition i_grow (I : ideal) (t : Z) : Z * Z :=
 
 Definition block_valid (I : ideal) (b_start b_end : Z) : bool :=
   let fb := esz (i_ty I) in
-  negb (i_total I =? 0) && (0 <=? fb * (b_start - 1)) && (fb * (b_start - 1) <=? fb * b_end) && (fb * b_end <=? i_total I).
+  negb (i_total I =? 0) && (0 <=? fb * (b_start - 1)) && (fb * (b_start - 1) <? fb * b_end) && (fb * b_end <=? i_total I).
 
 Definition istep (I : ideal) (o : op) : ideal :=
   match o with
@@ -921,7 +922,7 @@ Definition iread (I : ideal) (o : op) : option (list (option Z)) :=
   match o with
   | ReadAll => Some (map (i_b I) (zrange 0 (i_total I)))
   | ReadBlock b e =>
-      if block_valid I b e && (fb * (b - 1) <? fb * e)
+      if block_valid I b e
       then Some (map (i_b I) (zrange (fb * (b - 1)) (fb * e - fb * (b - 1)))) else None
   | ReadStrided sel =>
       match sel_positions (i_hdr I) sel with
